@@ -52,24 +52,17 @@ def numpy_to_graph(arr, arr_idx: List[Node], graph_type):
         arr_val = arr[idx, jdx]
         u, v = arr_idx[idx], arr_idx[jdx]
 
+        # the entry is the sum of at most one bidirected, one undirected and one directed or
+        # circle value: peel them off from the largest to the smallest
         if arr_val >= EDGE_TO_VALUE_MAPPING["bidirected"]:
-            # we have a bidirected edge at least
             edge_type = VALUE_TO_EDGE_MAPPING[EDGE_TO_VALUE_MAPPING["bidirected"]]
             graph.add_edge(u, v, edge_type=edge_type)
-            if arr_val % EDGE_TO_VALUE_MAPPING["bidirected"] > 0:
-                arr_val -= EDGE_TO_VALUE_MAPPING["bidirected"]
-                edge_type = VALUE_TO_EDGE_MAPPING[arr_val]
-                graph.add_edge(u, v, edge_type=edge_type)
-        elif arr_val >= EDGE_TO_VALUE_MAPPING["undirected"]:
-            # we have an undirected edge at least
+            arr_val -= EDGE_TO_VALUE_MAPPING["bidirected"]
+        if arr_val >= EDGE_TO_VALUE_MAPPING["undirected"]:
             edge_type = VALUE_TO_EDGE_MAPPING[EDGE_TO_VALUE_MAPPING["undirected"]]
             graph.add_edge(u, v, edge_type=edge_type)
-            if np.mod(arr_val, EDGE_TO_VALUE_MAPPING["undirected"]) > 0:
-                arr_val -= EDGE_TO_VALUE_MAPPING["undirected"]
-                VALUE_TO_EDGE_MAPPING[arr_val]
-                graph.add_edge(u, v, edge_type=edge_type)
-        else:
-            # we only have a single edge
+            arr_val -= EDGE_TO_VALUE_MAPPING["undirected"]
+        if arr_val > 0:
             edge_type = VALUE_TO_EDGE_MAPPING[arr_val]
             graph.add_edge(u, v, edge_type=edge_type)
 
